@@ -312,10 +312,13 @@ class Compiler:
         :param code: The C code to compile.
         :return: The RzIL representation of it.
         """
-        ast = self.parser.parse(code)
-        result = self.transformer.transform(ast)
-        self.transformer.reset()
-        return result
+        try:
+            ast = self.parser.parse(code)
+            return self.transformer.transform(ast)
+        finally:
+            # Also reset after a failed compilation.
+            # Otherwise the next statement contains the operands of this one.
+            self.transformer.reset()
 
     def compile_insn(self, insn_name: str) -> RZILInstruction:
         return self.transform_insn(insn_name, self.parsed_insns[insn_name])
